@@ -234,9 +234,9 @@ func RunChunk(sc ChunkScenario, o ChunkOpts) *ChunkResult {
 			e = ExpectH(m, op)
 		}
 		logStart := len(st.Log)
-		r := CallHandler(h, op)
+		r, completed := CallGuarded(conn, h, op)
 		res.Results = append(res.Results, r.String())
-		if conn.Hung || conn.Spun {
+		if !completed || conn.Hung || conn.Spun {
 			break
 		}
 		if !o.NoModel {
